@@ -216,9 +216,26 @@ def cases(tier, seed):
                 cheb = "%d 1/32 1 %d %d" % (r.choice([1, 2, 3, 5] if dbl else [1, 2, 3]), int(r.random() < 0.4), (r.choice([0, 0, 3]) if dbl else 0))
                 scr, kinds = script(r, n, rows, dbl, solver, ["apply"] + (["solve", "solveA", "msapply"] if solver != "none" else []),
                                     nlen=(r.choice([3, 4, 5]) if dbl or not heavy else 2))
+                side = kc.side_for(r, solver) if solver != "none" else "right"; sprm = solver_prm(r, solver, dbl, heavy)
                 add("%sp%d %srprec %s %s %s %s 1 %s %s %s %s %s" % (pre, k, "d." if dbl else "", rx, r.choice(["-", "3/4", "1/2"]), kk, cheb, solver,
-                    kc.side_for(r, solver) if solver != "none" else "right", kc.fmt_prm(**solver_prm(r, solver, dbl, heavy)), crs(n, rows), scr),
-                    obj="rprec", relax=rx, solver=solver, dbl=dbl, kinds=kinds)
+                    side, kc.fmt_prm(**sprm), crs(n, rows), scr),
+                    obj="rprec", relax=rx, solver=solver, dbl=dbl, kinds=kinds,
+                    cheby_model=(None if dbl or rx != "chebyshev" or solver not in MODEL_SOLVERS else
+                                 "%s %s %s %s %s %s" % (" ".join(cheb.split(" ")[:4]), solver, side, kc.fmt_prm(**sprm), crs(n, rows), scr)))
+    # ---- 2b. as_preconditioner<chebyshev> with every modelled solver (exact; compared with the model object as well)
+    for rep in range(6 * mult):
+        k += 1
+        solver = MODEL_SOLVERS[rep % len(MODEL_SOLVERS)]
+        heavy = solver in ("gmres", "fgmres")
+        n = r.choice([3, 4]) if heavy else r.choice([3, 4, 5, 6])
+        rows = gen.spd_mmatrix(r, n, extra_diag=F(1, 2))
+        cheb = "%d %s 1 %d 0" % (r.choice([1, 2, 3]), r.choice(["1/32", "1/16", "1/4"]), int(r.random() < 0.5))
+        scr, kinds = script(r, n, rows, False, solver, ["apply"] + (["solve", "solveA", "msapply"] if solver != "none" else []),
+                            nlen=(2 if heavy else r.choice([2, 3, 4])))
+        side = kc.side_for(r, solver) if solver != "none" else "right"; sprm = solver_prm(r, solver, False, heavy)
+        add("%sp%d rprec chebyshev - - %s 1 %s %s %s %s %s" % (pre, k, cheb, solver, side, kc.fmt_prm(**sprm), crs(n, rows), scr),
+            obj="rprec", relax="chebyshev", solver=solver, dbl=False, kinds=kinds,
+            cheby_model="%s %s %s %s %s %s" % (" ".join(cheb.split(" ")[:4]), solver, side, kc.fmt_prm(**sprm), crs(n, rows), scr))
     # ---- 3. skyline LU
     for rep in range(8 * mult):
         for dbl in (False, True):
@@ -331,6 +348,16 @@ def meta_from_line(l):
     """meta of a replayed case line (the model comparison of exact amg lines needs the pieces of the line)"""
     tk = l.split(" ")
     m = dict(obj=tk[1])
+    if tk[1] == "rprec" and tk[2] == "chebyshev":
+        # id rprec chebyshev damping k degree lower higher scale power serial solver side prm16 A script
+        try:
+            solver = tk[11]
+            m.update(obj="rprec", relax="chebyshev", solver=solver, dbl=False)
+            if solver in MODEL_SOLVERS and tk[9] == "0":
+                m["cheby_model"] = " ".join(tk[5:9] + tk[11:])
+        except Exception:
+            pass
+        return m
     if not tk[1].startswith("ramg."): return m
     try:
         co = tk[1][5:]; rx = tk[2]
@@ -392,11 +419,14 @@ def run(ctx, lines_override=None):
     # model with its state (amg scratch, solver workspace) threaded through the script
     mcases = []
     for l, m in cs:
-        if not m.get("model"): continue
+        if not (m.get("model") or m.get("cheby_model")): continue
         cid = l.split(" ", 1)[0]; a = impl.get(cid)
         if a is None or " || " not in a or a.startswith(("EXC", "CRASH")): continue
         one = a.partition(" || ")[0]
         if len(one) > MAX_MODEL_OUT: info["model_skipped_too_large"] = info.get("model_skipped_too_large", 0) + 1; continue
+        if m.get("cheby_model"):    # make_solver<as_preconditioner<chebyshev>, S>: state (p, r) threaded by ReuseProofs4.cheby_sp
+            mcases.append((cid, l, "%s rpm %s" % (cid, m["cheby_model"]), one, dict(m, coarsening="as_preconditioner")))
+            continue
         ml = model_line(cid, m["model"], one)
         if ml is not None: mcases.append((cid, l, ml, one, m))
     if mcases:
@@ -416,7 +446,8 @@ def run(ctx, lines_override=None):
                     first = next((i for i in range(max(len(pa), len(pb))) if i >= len(pa) or i >= len(pb) or pa[i] != pb[i]), -1)
                     fails.append(dict(kind="counterexample", case=l, impl=one[:3000], model=(b or "")[:3000], op="reuse-model:" + l.split(" ", 2)[1], size=len(l),
                                       oracle=dict(op="msm", first_differing_call=first, model_line=ml[:4000]),
-                                      theorem="C15 correspondence: history on ONE make_solver<amg(%s,%s), %s> object vs the extracted state-passing model object "
-                                              "(amg scratch and solver workspace threaded through the script)" % (m["coarsening"], m["relax"], m["solver"])))
+                                      theorem="C15 correspondence: history on ONE make_solver<%s(%s), %s> object vs the extracted state-passing model object "
+                                              "(preconditioner state and solver workspace threaded through the script)" % (
+                                                  "amg:" + m["coarsening"] if m.get("model") else "as_preconditioner", m["relax"], m["solver"])))
     ctx["stats"]["samples"].append(dict(reuse_info=info))
     return fails
